@@ -262,3 +262,23 @@ Lemma pipe_checker_means hdr recs strm hung :
 Proof.
   unfold C07_check_pipe. rewrite andb_true_iff, negb_true_iff, zlist_eqb_eq. tauto.
 Qed.
+
+(* what clause 2 of the gate checker demands holds in every reachable state: the bytes the underlying
+   writer has accepted, followed by the bytes of the write it is being handed, are a prefix of the
+   accepted stream *)
+Definition parked_bytes (s : st) : list Z := match cpc_ s with CGate w _ => w | _ => [] end.
+
+Lemma file_prefix_reachable cap bsize progs sched :
+  let s := run st tid step (init cap bsize progs) sched in
+  is_prefix (file s ++ parked_bytes s) (concat (accepted (log s))).
+Proof.
+  intros s. destruct (fifo_order_reachable cap bsize progs sched) as [H _]. fold s in H.
+  rewrite <- H. unfold stream, pend, parked_bytes.
+  destruct (cpc_ s) as [|k|w [p m|k]|cl|].
+  - exists (buf s ++ concat (q s)). now rewrite app_nil_r.
+  - exists (buf s ++ concat (q s)). now rewrite app_nil_r.
+  - exists (p ++ buf s ++ concat (q s)). now rewrite <- !app_assoc.
+  - exists (buf s ++ concat (q s)). now rewrite <- !app_assoc.
+  - exists (buf s ++ concat (q s)). now rewrite app_nil_r.
+  - exists (buf s ++ concat (q s)). now rewrite app_nil_r.
+Qed.
